@@ -80,7 +80,7 @@ def check_core_family(prop, tier):
                           "builder_model_states": r["states"]})
     if prop == "C04":
         # one parser object, the same token presented again under another key (call histories)
-        r = parser_pipeline(prop, tier, "c15", ("C04",))
+        r = parser_pipeline(prop, tier, "c15", ("C04",), cfgname="c04")
         extra_viol = r["violations"]
         extra_cov = {"parser_histories_executed": r["n"], "parser_parses": r["nparse"], "parser_model_states": r["states"]}
     fresh = verif.report(prop, s["violations"] + extra_viol, tier)
@@ -325,9 +325,9 @@ PARSER_ASSUMPTIONS = [
 ]
 
 
-def parser_pipeline(prop, tier, fam, whys, sweep=0):
+def parser_pipeline(prop, tier, fam, whys, sweep=0, cfgname=None):
     thorough = tier == "thorough"
-    cfg = "MC_Parser_%s%s.cfg" % (fam, "_thorough" if thorough else "")
+    cfg = "MC_Parser_%s%s.cfg" % (cfgname or fam, "_thorough" if thorough else "")
     res = verif.run_tlc("MC_Parser.tla", cfg, workers=8, timeout=3000)
     verif.require_model_ok(res, cfg)
     behs = verif.printed_records(res["out"], "BEH")
